@@ -15,6 +15,15 @@ from .mirparse import split_top
 from .resolve import parse_callee
 
 
+class WireBuf:
+    """abstract protobuf wire buffer: a sequence of (field number, wire type, kind, payload) records"""
+
+    def __init__(self, records=None):
+        self.records = records if records is not None else []
+        self.pos = 0
+        self.skipped = []
+
+
 def merge_scalars(conds, vals):
     """ite-merge of scalar values under pairwise exclusive conditions (None if not mergeable)"""
     if not vals:
@@ -107,6 +116,15 @@ class Models:
         for name in dir(self):
             if name.startswith('m_') and getattr(self, name) is not None:
                 self.table[name[2:].replace('__', '::')] = getattr(self, name)
+        for kind in self.SCALAR_WT:
+            self.table[f'{kind}::encode'] = self._wire_encode
+            self.table[f'{kind}::encode_packed'] = self._wire_encode_packed
+            self.table[f'{kind}::encode_repeated'] = self._wire_encode_repeated
+            self.table[f'{kind}::encoded_len'] = self._wire_len
+            self.table[f'{kind}::encoded_len_packed'] = self._wire_len
+            self.table[f'{kind}::encoded_len_repeated'] = self._wire_len
+            self.table[f'{kind}::merge'] = self._wire_merge
+            self.table[f'{kind}::merge_repeated'] = self._wire_merge_repeated
         self.table['__private::not'] = self.p_not
         self.table['__private::format_err'] = self.p_format_err
         self.table['BothDebug::__dispatch_ensure'] = self.p_dispatch_ensure
@@ -1792,6 +1810,203 @@ class Models:
         return Enum('LevelFilter', 0, 'Off', [])
 
     m_log__max_level = m_max_level
+
+    # ------------------------------------------------------------------ prost::encoding as abstract wire records
+    # A buffer is a WireBuf: records (tag, wire_type, kind, payload). Byte-level varint/fixed coding lives in the
+    # external `prost`/`bytes` crates and is not modelled; the derive output (tags, kinds, labels, dispatch) is executed.
+    SCALAR_WT = {'double': 1, 'float': 5, 'uint64': 0, 'int64': 0, 'int32': 0, 'uint32': 0, 'bool': 0, 'string': 2, 'bytes': 2,
+                 'sint32': 0, 'sint64': 0, 'fixed64': 1, 'fixed32': 5, 'sfixed64': 1, 'sfixed32': 5}
+
+    @staticmethod
+    def _fn_generics(c):
+        k = c.index('::<')
+        inner = c[k + 3:]
+        inner = inner[:inner.rindex('>')]
+        return [x.strip() for x in split_top(inner)]
+
+    def _msg_body(self, method, ty, mut=False):
+        want = ('&mut ' if mut else '&') + ty
+        hits = [b for b in self.it.mir.by_method.get(method, []) if b.param_tys and norm_ty(b.param_tys[0]) == norm_ty(want)
+                and b.span and b.span[0].endswith('ommx.v1.rs')]
+        if len(hits) != 1:
+            raise Unsupported(f'prost impl {method} for {ty}: {len(hits)} bodies')
+        return hits[0]
+
+    def m_DecodeError__push(self, c, err, msg, field):
+        return UNIT
+
+    def _enc_kind(self, c):
+        return c.split('prost::encoding::')[1].split('::')[0] if 'prost::encoding::' in c else None
+
+    def _wire_encode(self, c, tag, val, buf):
+        kind = self._enc_kind(c)
+        deref(buf).records.append((tag, self.SCALAR_WT[kind], kind, deep_clone(deref(val))))
+        return UNIT
+
+    def _wire_encode_packed(self, c, tag, vals, buf):
+        kind = self._enc_kind(c)
+        items = list(items_of(vals).items)
+        if items:
+            deref(buf).records.append((tag, 2, 'packed-' + kind, [deep_clone(x) for x in items]))
+        return UNIT
+
+    def _wire_encode_repeated(self, c, tag, vals, buf):
+        kind = self._enc_kind(c)
+        for x in items_of(vals).items:
+            deref(buf).records.append((tag, self.SCALAR_WT[kind], kind, deep_clone(deref(x))))
+        return UNIT
+
+    def _wire_len(self, c, *a):
+        return 1      # lengths are not modelled (byte-level)
+
+    def _wire_take(self, buf, wt_expected, wt):
+        b = deref(buf)
+        if wt.discr != wt_expected:
+            return None
+        if b.pos >= len(b.records):
+            return None
+        r = b.records[b.pos]
+        b.pos += 1
+        return r
+
+    def _wire_merge(self, c, wt, val, buf, ctx):
+        kind = self._enc_kind(c)
+        r = self._wire_take(buf, self.SCALAR_WT[kind], wt)
+        if r is None or r[2] != kind:
+            return Err(Opaque('DecodeError', 'wire type'))
+        val.set(deep_clone(r[3]))
+        return Ok(UNIT)
+
+    def _wire_merge_repeated(self, c, wt, vals, buf, ctx):
+        kind = self._enc_kind(c)
+        b = deref(buf)
+        if wt.discr == 2 and b.pos < len(b.records) and b.records[b.pos][2] == 'packed-' + kind:
+            r = b.records[b.pos]
+            b.pos += 1
+            deref(vals).items.extend(deep_clone(x) for x in r[3])
+            return Ok(UNIT)
+        r = self._wire_take(buf, self.SCALAR_WT[kind], wt)
+        if r is None or r[2] != kind:
+            return Err(Opaque('DecodeError', 'wire type'))
+        deref(vals).items.append(deep_clone(r[3]))
+        return Ok(UNIT)
+
+    def m_message__encode(self, c, tag, msg, buf):
+        sub = WireBuf()
+        ty = self._fn_generics(c)[0]
+        self.it.run_body(self._msg_body('encode_raw', ty), [msg if isinstance(msg, Ref) else ref_to(msg), ref_to(sub)])
+        deref(buf).records.append((tag, 2, 'message', sub.records))
+        return UNIT
+
+    def m_message__encode_repeated(self, c, tag, msgs, buf):
+        for m in items_of(msgs).items:
+            self.m_message__encode(c, tag, m if isinstance(m, Ref) else ref_to(m), buf)
+        return UNIT
+
+    def m_message__encoded_len(self, c, tag, msg):
+        return 1
+
+    def m_message__encoded_len_repeated(self, c, tag, msgs):
+        return len(items_of(msgs).items)
+
+    def _merge_message_into(self, ty, target_ref, records, skipped=None):
+        sub = WireBuf(list(records))
+        if skipped is not None:
+            sub.skipped = skipped
+        while sub.pos < len(sub.records):
+            tag, wt, kind, payload = sub.records[sub.pos]
+            wte = Enum('WireType', wt, {0: 'Varint', 1: 'SixtyFourBit', 2: 'LengthDelimited', 5: 'ThirtyTwoBit'}.get(wt, 'Varint'), [])
+            before = sub.pos
+            r = self.it.run_body(self._msg_body('merge_field', ty, True), [target_ref, tag, wte, ref_to(sub), Opaque('DecodeContext')])
+            if r.vname != 'Ok':
+                return r
+            if sub.pos == before:
+                raise Inconclusive('merge_field consumed nothing')
+        return Ok(UNIT)
+
+    def m_message__merge(self, c, wt, msg, buf, ctx):
+        r = self._wire_take(buf, 2, wt)
+        if r is None or r[2] != 'message':
+            return Err(Opaque('DecodeError', 'wire type'))
+        return self._merge_message_into(self._fn_generics(c)[0], msg, r[3])
+
+    def m_message__merge_repeated(self, c, wt, msgs, buf, ctx):
+        r = self._wire_take(buf, 2, wt)
+        if r is None or r[2] != 'message':
+            return Err(Opaque('DecodeError', 'wire type'))
+        ty = self._fn_generics(c)[0]
+        m = self.default_of(ty)
+        res = self._merge_message_into(ty, ref_to(m), r[3])
+        if res.vname != 'Ok':
+            return res
+        deref(msgs).items.append(m)
+        return Ok(UNIT)
+
+    def m_encoding__skip_field(self, c, wt, tag, buf, ctx):
+        b = deref(buf)
+        if b.pos < len(b.records):
+            b.skipped.append(b.records[b.pos])
+            b.pos += 1
+        return Ok(UNIT)
+
+    def m_hash_map__encode(self, c, kenc, klen, venc, vlen, tag, m, buf):
+        mm = deref(m)
+        for k, v in self.map_iter_order(mm):
+            sub = WireBuf()
+            # prost skips default keys / values inside a map entry
+            if not self._is_default(k):
+                self.call_closure(kenc, 1, ref_to(k), ref_to(sub))
+            if not self._is_default(v):
+                self.call_closure(venc, 2, ref_to(v), ref_to(sub))
+            deref(buf).records.append((tag, 2, 'map-entry', sub.records))
+        return UNIT
+
+    def _is_default(self, v):
+        v = deref(v)
+        if isinstance(v, FV):
+            r = f_cmp('eq', v, ZERO)
+        elif isinstance(v, RString):
+            r = v.s == ''
+        elif isinstance(v, bool):
+            r = not v
+        elif isinstance(v, int):
+            r = v == 0
+        elif is_bv(v):
+            r = v == z3.BitVecVal(0, v.size())
+        elif isinstance(v, z3.BoolRef):
+            r = z3.Not(v)
+        else:
+            return False
+        return self.ctx.branch(r)
+
+    def m_hash_map__encoded_len(self, c, klen, vlen, tag, m):
+        return len(deref(m).entries)
+
+    def m_hash_map__merge(self, c, kmerge, vmerge, m, buf, ctx):
+        b = deref(buf)
+        if b.pos >= len(b.records) or b.records[b.pos][2] != 'map-entry':
+            return Err(Opaque('DecodeError', 'wire type'))
+        r = b.records[b.pos]
+        b.pos += 1
+        ktys = self._fn_generics(c)
+        key = self.default_of(ktys[0])
+        val = self.default_of(ktys[1])
+        kcell, vcell = [key], [val]
+        sub = WireBuf(list(r[3]))
+        while sub.pos < len(sub.records):
+            tag, wt, kind, payload = sub.records[sub.pos]
+            wte = Enum('WireType', wt, 'x', [])
+            if tag == 1:
+                rr = self.call_closure(kmerge, wte, Ref(kcell, 0), ref_to(sub), ctx)
+            elif tag == 2:
+                rr = self.call_closure(vmerge, wte, Ref(vcell, 0), ref_to(sub), ctx)
+            else:
+                sub.pos += 1
+                continue
+            if rr.vname != 'Ok':
+                return rr
+        self.map_insert(deref(m), kcell[0], vcell[0])
+        return Ok(UNIT)
 
     # ------------------------------------------------------------------ Box / misc
     def m_Box__new(self, c, x):
